@@ -3,6 +3,7 @@ package o
 import (
 	"fmt"
 	"math"
+	"sort"
 	"time"
 
 	"verif/sim/simrt"
@@ -411,7 +412,13 @@ func judgeC11(hi *Hist) []*Violation {
 			}
 		}
 	}
-	for bar, list := range per {
+	var perBars []int
+	for bar := range per {
+		perBars = append(perBars, bar)
+	}
+	sort.Ints(perBars) // the first violation is the one reported: it must not depend on map order
+	for _, bar := range perBars {
+		list := per[bar]
 		cSeen, aSeen := -1, -1 // earliest return index at which true was observed
 		// process in order of return
 		for k := 1; k < len(list); k++ {
